@@ -1164,7 +1164,7 @@ def oracle_round5_radial(chk, quick):
         chk.oracle_cases += 1
         dim = rng.randint(1, 16) if it % 8 else rng.choice([32, 64, 100, 128])
         size = 2 * dim
-        kind = ["uint8", "uint16", "int32", "bright", "faint", "layout", "big-endian", "float-hdr"][it % 8]
+        kind = ["uint8", "uint16", "int32", "bright", "faint", "layout", "big-endian", "float-hdr", "float32"][it % 9]
         nprng = numpy.random.default_rng(rng.getrandbits(32))
         if kind in ("uint8", "uint16", "int32"):
             hi = {"uint8": 255, "uint16": 65535, "int32": 2 ** 31 - 1}[kind]
@@ -1176,13 +1176,18 @@ def oracle_round5_radial(chk, quick):
             data = unit * 2.0 ** pw
         elif kind == "big-endian":
             data = (nprng.uniform(0, 1, (size, size)) ** 4).astype(">f8")
+        elif kind == "float32":                       # single-precision frames; all the flux inside the largest aperture in half of them
+            data = (nprng.uniform(0, 1, (size, size)) ** 4).astype("float32")
+            if it % 2:
+                data[:] = 0
+                data[dim - 1, dim - 1] = 1
+                data[min(dim, size - 1), min(dim, size - 1)] = numpy.float32(1e-8)
         elif kind == "float-hdr":                     # a star core 1e12 times the wings
             data = nprng.uniform(0, 1, (size, size))
             data[rng.randrange(size), rng.randrange(size)] = 1e12
         else:
             data = nprng.uniform(0, 1, (size, size)) ** 4
-        # TODO(round 5): float32 images are NOT drawn — on the unchanged library encircled_energy(float32 image) normalises by a
-        # single-precision numpy.sum(data) and the curve exceeds 1 by up to ~1e-7 (reported as a suspected defect, not judged here)
+        # float32 images: finding ee:range:float32 (the total was summed in single precision: curve up to 1.00000001), fixed by c007241
         layout = "C"
         if kind == "layout" or it % 5 == 0:
             data, layout = _r5_layout(rng, data, ("F", "strided", "reversed", "readonly"))
